@@ -244,7 +244,7 @@ def _unambiguous_primal(
 
     problem.add_list_of_constraints(m | rho == 0 for (m, rho) in zip(measurements, unnormalized_dms))
 
-    problem.set_objective("min", picos.trace(sums_of_unnormalized_dms * inconclusive_measurement))
+    problem.set_objective("min", picos.trace(sums_of_unnormalized_dms * inconclusive_measurement).real)
     solution = problem.solve(solver=solver, **kwargs)
 
     return solution.value, measurements + [inconclusive_measurement]
